@@ -41,6 +41,7 @@ type Clause struct {
 	File    string
 	Line    int
 	Trusted bool
+	Optional bool // at-call? : the clause may match no call site (e.g. it forbids a call)
 }
 
 type FuncContract struct {
@@ -353,6 +354,15 @@ func (cs *Contracts) parseLines(lines []string, lineNos []int, file, pkgPath str
 				c.Kind = f[2]
 				idx := strings.Index(l, f[2])
 				rest = strings.TrimSpace(l[idx+len(f[2]):])
+			case strings.HasPrefix(l, "at-call? "):
+				c.Kind = "atcall"
+				c.Optional = true
+				rest = strings.TrimSpace(l[len("at-call? "):])
+				sp := strings.IndexAny(rest, " \t")
+				if sp < 0 {
+					return errf("bad at-call")
+				}
+				c.Pat, rest = rest[:sp], strings.TrimSpace(rest[sp:])
 			case strings.HasPrefix(l, "at-call "):
 				c.Kind = "atcall"
 				rest = strings.TrimSpace(l[len("at-call "):])
